@@ -93,7 +93,21 @@ struct SeamGuard { SeamGuard() { ++t_inSeam; } ~SeamGuard() { --t_inSeam; } };
 // Wait until the timer thread is parked again or has terminated.
 inline void waitTimerQuiescent() {
     uint64_t spins = 0;
+    struct timespec t0 {};
     for (;;) {
+        // watchdog (real time, used for nothing else): a timer thread that neither parks nor ends is blocked for good -
+        // in the code under test only on a lock nobody will release. The run cannot go on; it ends with a marked abort.
+        if ((++spins & 0xfff) == 0) {
+            struct timespec t {};
+            clock_gettime(CLOCK_MONOTONIC, &t);
+            if (t0.tv_sec == 0) t0 = t;
+            else if (t.tv_sec - t0.tv_sec > 30) {
+                static const char msg[] = "GCSIM-FATAL: timer_thread_blocked_forever\n";
+                ssize_t ignored = write(2, msg, sizeof msg - 1);
+                (void)ignored;
+                abort();
+            }
+        }
         if (g_parked.load(RLX)) return;
         if (g_exited.load(RLX)) return;
         if (!g_reaped && !g_detached.load(RLX)) {
@@ -104,7 +118,7 @@ inline void waitTimerQuiescent() {
                 return;
             }
         }
-        if (g_detached.load(RLX) && ++spins > 200000) return;  // cannot observe a detached thread's end
+        if (g_detached.load(RLX) && spins > 200000) return;  // cannot observe a detached thread's end
         spinPause();
     }
 }
